@@ -26,11 +26,12 @@ IsPos(v) == v \in {"def", "p1", "p2"}
 (***************************************************************************)
 (* cfg = [n: NF -> value, t: TF -> value, log, rlc, ro, maxfs, squash]      *)
 (*   log    "nil" | "l1" | "l2"            (construction default: nil)      *)
-(*   rlc    "def" | "r1" | "nil"           (RateLimitConfig; default: DefaultRateLimiterConfig) *)
+(*   rlc    "def" | "r1" | "r2" | "nil"    (RateLimitConfig; default: DefaultRateLimiterConfig; *)
+(*          r2 = a partially filled struct, which New() keeps as given)    *)
 (*   ro     "T" | "F"      maxfs "neg" | "zero" | "pos" (no default)        *)
 (*   squash "root" | "all"                                                 *)
 (* u = [kind, n: NF -> given|keep, tp: keep|nil|set, t: TF -> given|keep,   *)
-(*      log: keep|nil|l1|l2, rlc: keep|nil|r1, ro: keep|T|F,                *)
+(*      log: keep|nil|l1|l2, rlc: keep|nil|r1|r2, ro: keep|T|F,                *)
 (*      maxfs: keep|neg|zero|pos, squash: keep|same|other|empty|case]       *)
 (*   kind "export": every tuning and policy field is named (a whole struct),*)
 (*        squash "keep" stands for Squash == "" (accepted, mode kept)        *)
